@@ -170,6 +170,7 @@ class Target:
         texts = []
         protos = {}
         loops = []
+        autoloops = {}
         info = {'functions': [], 'mappings': {}, 'dropped_statements': []}
         enforced_printer = None
         present = []
@@ -191,6 +192,8 @@ class Target:
                 protos[f'nv_auto:{P.cname}'] = '\n'.join(P.auto_texts)
                 info.setdefault('auto_extracted_helpers', []).extend(sorted(P.auto_fns.values()))
             loops += [f'NV_LOOP_{P.cname}_{i}' for i in range(1, P.loops + 1)]
+            if not self.unwind:
+                autoloops.update({f'NV_LOOP_{P.cname}_{i}': c for i, c in P.auto_loops.items()})
             src = astload.resolve_tu(f.tu)
             info['functions'].append({'c_name': f.cname, 'cxx': f.name, 'file': src, 'line': f.line,
                                       'sha': astload.file_hash(src), 'loops': P.loops})
@@ -242,7 +245,11 @@ class Target:
         for f in present:
             out.append(f'#ifndef NV_CONTRACT_{f.cname}\n#define NV_CONTRACT_{f.cname}\n#endif')
         for m in loops:
-            out.append(f'#ifndef {m}\n#define {m}\n#endif')
+            # a loop the spec gives no contract: the contract of a canonical counting loop where the printer recognised one
+            # (cxx2c.auto_loop_contract), otherwise none (the loop is then unwound, or the target does not terminate: exit 2)
+            out.append(f'#ifndef {m}\n#define {m} {autoloops.get(m, "")}\n#endif')
+            if m in autoloops:
+                info.setdefault('auto_loop_contracts', []).append(m)
         out += list(protos.values())
         # forward declarations so extracted functions can call each other in any order
         for f in present:
